@@ -279,7 +279,7 @@ def check_finalize(chk, rule):
            sample='finalize_symmetric_matrix -> csr_matrix(make_symmetric(M))')
 
 
-def check_finalize_path(chk, rule, rel, cls, meth, attr, fin='finalize_symmetric_matrix'):
+def check_finalize_path(chk, rule, rel, cls, meth, attr, fin='finalize_symmetric_matrix', allow_after=()):
     """on the finalize=True path the value stored in self.<attr> passed through
     finalize_symmetric_matrix exactly once, after the last accumulation"""
     m = module(rel)
@@ -314,7 +314,8 @@ def check_finalize_path(chk, rule, rel, cls, meth, attr, fin='finalize_symmetric
             between = _reach(cfg, f, avoid={s}, cut=set()) - {f}
             for b in between:
                 nb = cfg.nodes[b]
-                if isinstance(nb, (ast.AugAssign,)) and norm(nb.target) == var and s in cfg.reachable(b):
+                if isinstance(nb, (ast.AugAssign,)) and norm(nb.target) == var and s in cfg.reachable(b) \
+                        and norm(nb.value) not in allow_after:
                     ok = False
                     detail = 'value modified after symmetrisation (line %d)' % nb.lineno
     chk.ob(rule, ok, rel, '%s.%s' % (cls, meth), 'finalize path of self.' + attr, line=fn.lineno, detail=detail,
@@ -539,3 +540,6 @@ def r04_python(chk, conv):
 
 def r08_python(chk):
     pass
+
+
+check_finalize_path_uncond = check_finalize_path
